@@ -380,10 +380,14 @@ impl<F: Field> Polynomial<F, LagrangeCoeff> {
     /// Rotates the values in a `LagrangeCoeff` polynomial by `Rotation`
     pub fn rotate(&self, rotation: Rotation) -> Polynomial<F, LagrangeCoeff> {
         let mut values = self.values.clone();
-        if rotation.0 < 0 {
-            values.rotate_right((-rotation.0) as usize);
-        } else {
-            values.rotate_left(rotation.0 as usize);
+        if !values.is_empty() {
+            // Rotations are taken modulo the size of the domain.
+            let len = values.len();
+            if rotation.0 < 0 {
+                values.rotate_right(rotation.0.unsigned_abs() as usize % len);
+            } else {
+                values.rotate_left(rotation.0 as usize % len);
+            }
         }
         Polynomial {
             values,
